@@ -92,3 +92,5 @@
 ; go/types information, abstract: the callee object of a call and the type of an expression
 (declare-fun calleeOf (Ref) Iface)
 (declare-fun typeOfExpr (Iface) Iface)
+; contains a call of Yield/YieldFrom outside nested function literals (abstract; decided by rewriter.containsYield)
+(declare-fun HasYield (Iface) Bool)
